@@ -55,6 +55,9 @@ pub struct Loader {
     rules: HashMap<String, SmallMap<String, eval::EvalString<String>>>,
     pools: SmallMap<String, usize>,
     builddir: Option<String>,
+    /// The files being read right now: the manifest, and the chain of
+    /// include/subninja statements that led to the current file.
+    reading: Vec<FileId>,
 }
 
 impl Loader {
@@ -182,6 +185,9 @@ impl Loader {
 
     pub fn read_file_by_id(&self, id: FileId) -> anyhow::Result<(PathBuf, Vec<u8>)> {
         let path = self.graph.file(id).path().to_path_buf();
+        if self.reading.contains(&id) {
+            bail!("{} includes itself", path.display());
+        }
 
         match trace::scope("read file", || scanner::read_file_with_nul(&path)) {
             Ok(b) => Ok((path, b)),
@@ -217,7 +223,9 @@ impl Loader {
                     let mut sub_parser = parse::Parser::new(bytes);
 
                     sub_parser.inherit(&parser);
+                    self.reading.push(id);
                     self.parse_with_parser(&mut sub_parser, path, envs)?;
+                    self.reading.pop();
                     parser.adopt(sub_parser);
                 }
 
@@ -228,7 +236,9 @@ impl Loader {
                     let mut sub_parser = parse::Parser::new(&bytes);
 
                     sub_parser.inherit(&parser);
+                    self.reading.push(id);
                     self.parse_with_parser(&mut sub_parser, path, envs)?;
+                    self.reading.pop();
                 }
 
                 Statement::Default(defaults) => {
@@ -280,6 +290,7 @@ pub fn read(build_filename: &str) -> anyhow::Result<State> {
         let (path, bytes) = loader.read_file_by_id(id)?;
         let mut parser = parse::Parser::new(&bytes);
 
+        loader.reading.push(id);
         loader.parse_with_parser(&mut parser, path, &[])
     })?;
 
